@@ -191,6 +191,12 @@ def bindArgs (c : ECfg S) (l : Live S.V) : List Param → Env S.V → Nat → En
 def mkFinal (accC : List String) (accD : List (Dir S.V)) (o : Output S.V) : Output S.V :=
   { content := joinWith "\n\n" accC, choices := o.choices, pid := o.pid, rdirs := accD, idirs := o.idirs }
 
+/-- entering `cid` in the chain: `@join` progress restarts (main engine), position is updated -/
+def markEntered (c : ECfg S) (cid : String) (l : Live S.V) : Live S.V :=
+  match c.variant with
+  | .main => { l with joinIdx := Env.set l.joinIdx cid 0, cur := some cid }
+  | .browser => { l with cur := some cid }
+
 /-- the `while True` of `goto`; `recur` is `goto` itself one recursion level deeper -/
 def gotoLoop (c : ECfg S) (recur : String → Live S.V → NRes S (Output S.V)) :
     Nat → List String → String → List String → List (Dir S.V) → Live S.V → NRes S (Output S.V)
@@ -199,11 +205,7 @@ def gotoLoop (c : ECfg S) (recur : String → Live S.V → NRes S (Output S.V)) 
     if visited.contains cid then
       (l, .error ⟨.runtimeError, "Jump loop detected: " ++ joinWith " -> " (visited.reverse ++ [cid])⟩)
     else
-      let l1 : Live S.V :=
-        match c.variant with
-        | .main => { l with joinIdx := Env.set l.joinIdx cid 0, cur := some cid }
-        | .browser => { l with cur := some cid }
-      match executePassage c cid l1 with
+      match executePassage c cid (markEntered c cid l) with
       | (l2, .error e) => (l2, .error e)
       | (l2, .ok (some spec)) =>
         match recur spec l2 with
@@ -227,6 +229,17 @@ def gotoLoop (c : ECfg S) (recur : String → Live S.V → NRes S (Output S.V)) 
             else let f := mkFinal accC' accD' o; ({ l3 with out := some f }, .ok f)
           | none => let f := mkFinal accC' accD' o; ({ l3 with out := some f }, .ok f)
 
+/-- the `try` body of `goto`: the chain loop from the named passage with fresh accumulators -/
+def gotoBody (c : ECfg S) (recur : String → Live S.V → NRes S (Output S.V)) (pid : String)
+    (l : Live S.V) : NRes S (Output S.V) :=
+  gotoLoop c recur (c.story.passages.length + 1) [] pid [] [] l
+
+/-- push the parameter scope, run the body, pop in `finally` (on success and on error alike) -/
+def withScope (scope : Env S.V) (body : Live S.V → NRes S (Output S.V)) (l : Live S.V) :
+    NRes S (Output S.V) :=
+  match body { l with scopes := scope :: l.scopes } with
+  | (l', r) => ({ l' with scopes := l'.scopes.tail }, r)
+
 /-- `goto(passage_spec)`; the fuel stands for the interpreter's recursion limit -/
 def goto (c : ECfg S) : Nat → String → Live S.V → NRes S (Output S.V)
   | 0, _, l => (l, .error ⟨.recursionError, "maximum recursion depth exceeded"⟩)
@@ -237,7 +250,7 @@ def goto (c : ECfg S) : Nat → String → Live S.V → NRes S (Output S.V)
       match c.story.passage? pid with
       | none => (l, .error ⟨.valueError, "Cannot navigate to unknown passage: '" ++ pid ++ "'"⟩)
       | some p =>
-        let body := gotoLoop c (goto c fuel) (c.story.passages.length + 1) [] pid [] []
+        let body := gotoBody c (goto c fuel) pid
         if p.params.isEmpty && args == "" then body l
         else
           let ctx := evalCtx S c.cx l.vars l.scopes.head?
@@ -250,8 +263,7 @@ def goto (c : ECfg S) : Nat → String → Live S.V → NRes S (Output S.V)
                 (l, .error ⟨.valueError, "Error calling passage '" ++ pid ++ "': " ++ e.msg⟩)
               else (l, .error e)
             | .ok scope =>
-              match body { l with scopes := scope :: l.scopes } with
-              | (l', r) => ({ l' with scopes := l'.scopes.tail }, r)
+              withScope scope body l
 
 /-! ### hooks -/
 
